@@ -1,24 +1,236 @@
-import FluentProofs.CacheLive
+import FluentProofs.CacheOps
 /-!
 # C17 — fallback bundles are generated lazily, once, in order — under any interleaving
 
-Model: `FluentModel.Cache` (labelled transition system transcribing `fluent-fallback/src/cache.rs`).
-All theorems quantify over every source script (items, ready/pending pattern), every number of
-consumers and every sequence of labels `ls` (= every schedule, including spurious polls).
+Model: `FluentModel.Cache`, a labelled transition system transcribing
+`fluent-fallback/src/cache.rs` (`AsyncCacheStream::poll_next`, `AsyncCache::poll_next_item` with
+`pending_wakes`, `CacheIter::next`) and the `while let Some(bundle) = stream.next().await` loops of
+`bundles.rs`, over a scripted *fused* source that keeps only the last waker.
+
+Every theorem quantifies over every source script (`script`: the items with their ready/pending
+pattern, `e`: the pattern of the end), and every sequence of fine-grained labels `ls` –
+`start c d` (task `c` issues a request of depth `d`), `poll c fresh` (ONE `poll_next` of `c`'s
+stream, with or without the executor having just cleared `c`'s wake flag: this covers all
+interleavings and all spurious polls), `finish c`, `fire` (one event for the source) – or every
+sequence `ops` of the task-level operations the driver and the harness execute (`C17_ops_are_runs`
+shows the latter are instances of the former).  Consumers are arbitrary natural numbers: there is no
+bound on their number.
 -/
 namespace FluentProofs.C17
 open FluentModel.Cache FluentProofs.Cache
 
 variable {α : Type}
 
-/-- `items_prefix`: in every reachable state the cached items followed by the items the source has
-not yet yielded are exactly the source's items in order – so the cache is a prefix of the source's
-order, nothing is lost, duplicated or reordered – and the source has yielded exactly as many items
-as are cached (each pulled exactly once). -/
+/-- states reachable from the initial state of a script by any label sequence -/
+def Reachable (script : List (Nat × α)) (e : Nat) (s : St α) : Prop :=
+  ∃ ls, s = run (init script e) ls
+
+/-- **items_prefix / once.** In every reachable state the cached items followed by the items the source
+has not yet yielded are exactly the source's items in order – the cache is a prefix of the source's
+order, nothing is lost, duplicated or reordered – and the number of items the source has yielded
+equals the cache length (each bundle is generated exactly once, then reused). -/
 theorem C17_items_prefix (script : List (Nat × α)) (e : Nat) (ls : List Label) :
     let s := run (init script e) ls
     s.items ++ s.src.rest.map (·.2) = script.map (·.2) ∧ s.src.pulls = s.items.length := by
   have h := safe_run ls (safe_init script e)
   exact ⟨h.order, h.pulls⟩
+
+/-- **consumers_agree.** What any consumer's stream has delivered so far is exactly the first `curr`
+cached items; hence the `i`-th bundle ANY consumer receives is the source's `i`-th bundle (same
+bundles, same order, none lost or duplicated, for every consumer and every request). -/
+theorem C17_consumers_agree (script : List (Nat × α)) (e : Nat) (ls : List Label) (c : Task) :
+    let s := run (init script e) ls
+    (s.cons c).got = s.items.take (s.cons c).curr ∧
+    ∀ (i : Nat) (x : α), (s.cons c).got[i]? = some x → (script.map (·.2))[i]? = some x := by
+  have h := safe_run ls (safe_init script e)
+  refine ⟨h.got c, ?_⟩
+  intro i x hx
+  rw [h.got c] at hx
+  have hi : i < ((run (init script e) ls).items.take ((run (init script e) ls).cons c).curr).length := by
+    rcases Nat.lt_or_ge i ((run (init script e) ls).items.take ((run (init script e) ls).cons c).curr).length with h | h
+    · exact h
+    · rw [List.getElem?_eq_none h] at hx; cases hx
+  rw [List.getElem?_eq_getElem hi, List.getElem_take] at hx
+  have hi' : i < (run (init script e) ls).items.length := by
+    have := hi
+    rw [List.length_take] at this
+    omega
+  rw [← h.order, List.getElem?_append_left hi', List.getElem?_eq_getElem hi']
+  exact hx
+
+/-- **consumers_agree, one poll.** An item a stream hands out is the cached item at the stream's
+cursor, and the cursor moves by exactly one. -/
+theorem C17_poll_delivers (s s' : St α) (c : Task) (it : α)
+    (h : pollNext s c = (s', .ready (some it))) :
+    (s'.cons c).curr = (s.cons c).curr + 1 ∧ s'.items[(s.cons c).curr]? = some it :=
+  pollNext_some h
+
+/-- **lazy, one step.** No label polls the source except one `poll_next` of a stream of a request in
+flight whose cursor equals the cache length; that polls it exactly once. -/
+theorem C17_lazy_step (s : St α) (l : Label) :
+    (step s l).src.polls = s.src.polls ∨
+    ∃ c fresh, l = .poll c fresh ∧ (s.cons c).active = true ∧ (s.cons c).curr = s.items.length ∧
+      (step s l).src.polls = s.src.polls + 1 :=
+  step_polls s l
+
+/-- **lazy, growth.** One `poll_next` leaves the cache (and the source) untouched unless the stream
+stands exactly at the end of the cache; then the cache grows by at most one item, and that item is
+handed to the polling stream (its cursor becomes the new length). -/
+theorem C17_lazy_growth (s : St α) (c : Task) :
+    ((s.cons c).curr ≠ s.items.length →
+      (pollNext s c).1.items = s.items ∧ (pollNext s c).1.src = s.src) ∧
+    ((s.cons c).curr = s.items.length →
+      (pollNext s c).1.src.polls = s.src.polls + 1 ∧
+      ((pollNext s c).1.items = s.items ∨
+        ((pollNext s c).1.items.length = s.items.length + 1 ∧
+         (((pollNext s c).1).cons c).curr = (pollNext s c).1.items.length))) :=
+  pollNext_lazy s c
+
+/-- **lazy.** Under every sequence of task-level operations (requests of any depths, polled in any
+interleaving, with any source events) the number of bundles generated never exceeds the depth of the
+deepest request issued so far. -/
+theorem C17_lazy (script : List (Nat × α)) (e : Nat) (ops : List Op) :
+    let s := opRun (init script e) ops
+    s.items.length ≤ deepest (init script e) ops ∧ s.src.pulls ≤ deepest (init script e) ops := by
+  have h0 : OpInv 0 (init script e) := ⟨fun c hc => by simp [init] at hc, by simp [init]⟩
+  have h := opInv_opRun ops h0
+  obtain ⟨ls, hls⟩ := opRun_run (init script e) ops
+  have hs := safe_run ls (safe_init script e)
+  rw [← hls] at hs
+  simp only [Nat.zero_max] at h
+  exact ⟨h.2, by rw [hs.pulls]; exact h.2⟩
+
+/-- **answer.** A request of depth `d` that completes with a bundle is answered by the `d`-th bundle
+of the source's order, whatever happened in between. -/
+theorem C17_answer (script : List (Nat × α)) (e : Nat) (ops : List Op) (c : Task) (it : α) :
+    let s := opRun (init script e) ops
+    (pollTask s c).2 = .done (some it) →
+    (script.map (·.2))[max (s.cons c).want 1 - 1]? = some it := by
+  intro s hr
+  have h0 : OpInv 0 (init script e) := ⟨fun c hc => by simp [init] at hc, by simp [init]⟩
+  have h := opInv_opRun ops h0
+  have ha := pollTask_answer c h it hr
+  obtain ⟨ls, hls⟩ := opRun_run (init script e) ops
+  obtain ⟨ls2, _, hls2⟩ := pollTask_run s c
+  have hs := safe_run ls2 (safe_run ls (safe_init script e))
+  rw [← hls, ← hls2] at hs
+  have hlt : max (s.cons c).want 1 - 1 < (pollTask s c).1.items.length := by
+    rcases Nat.lt_or_ge (max (s.cons c).want 1 - 1) (pollTask s c).1.items.length with h | h
+    · exact h
+    · rw [List.getElem?_eq_none h] at ha; cases ha
+  rw [← hs.order, List.getElem?_append_left hlt]
+  exact ha
+
+/-- **no_lost_wakeup (invariant).** In every reachable state: only requests in flight wait; every
+waker in `pending_wakes` belongs to a waiting request standing at the end of the cache; every parked
+request (waiting, not woken) stands at the end of the cache and its waker IS in `pending_wakes`; the
+waker the source holds is the last one registered (the last entry of `pending_wakes`), belongs to a
+waiting request, and the source really is pending; and while anybody is parked, the source holds a
+waker or some waiting request at the end of the cache is runnable. -/
+theorem C17_no_lost_wakeup (script : List (Nat × α)) (e : Nat) (ls : List Label) :
+    WakeInv none (run (init script e) ls) :=
+  wakeInv_run ls (wakeInv_init script e)
+
+/-- **no_lost_wakeup (wake all).** When a stream at the end of the cache polls a source that is ready,
+every registered waker is called: afterwards no request is parked. -/
+theorem C17_ready_wakes_all (script : List (Nat × α)) (e : Nat) (ls : List Label) (c : Task) (fresh : Bool) :
+    let s := run (init script e) ls
+    (s.cons c).active = true → (s.cons c).curr = s.items.length → s.src.need = 0 →
+    ∀ t, ¬ Parked (step s (.poll c fresh)) t :=
+  fun ha hc hn t => ready_wakes_all (wakeInv_run ls (wakeInv_init script e)) c fresh ha hc hn t
+
+/-- **progress.** In every reachable state in which some request waits, either a waiting request's task
+has been woken (it is runnable), or the source is pending and holds the waker of a parked request (so
+the source's next event makes that task runnable).  There is no reachable stuck state. -/
+theorem C17_progress (script : List (Nat × α)) (e : Nat) (ls : List Label) (c : Task) :
+    let s := run (init script e) ls
+    (s.cons c).waiting = true →
+    (∃ w, (s.cons w).waiting = true ∧ (s.cons w).woken = true) ∨
+    (s.src.need ≠ 0 ∧ ∃ w, s.src.waker = some w ∧ Parked s w) :=
+  fun hc => progress_of_wakeInv (wakeInv_run ls (wakeInv_init script e)) c hc
+
+/-- **eventually woken and completes.** From any reachable state, consider any executor that from then
+on only takes *useful* steps – polls a task whose waiting request has been woken, or lets the pending
+source deliver an event (a fair executor with a source that eventually yields; `k` bounds the task
+ids in use).  (1) It can take at most `measure k s` such steps.  (2) As long as a request waits, a
+useful step exists.  Hence every maximal such run is finite and ends with no request waiting. -/
+theorem C17_drain (script : List (Nat × α)) (e : Nat) (ls : List Label) (k : Nat) (us : List Label) :
+    let s := run (init script e) ls
+    UsefulRun k s us →
+    us.length ≤ measure k s ∧
+    ((∀ t, ((run s us).cons t).waiting = true → t < k) →
+      (¬ ∃ l, Useful k (run s us) l) → ∀ c, ((run s us).cons c).waiting = false) := by
+  intro s hu
+  have hs : WakeInv none s := wakeInv_run ls (wakeInv_init script e)
+  refine ⟨by have := usefulRun_length_le us hs hu; omega, ?_⟩
+  intro hk hno c
+  cases hw : ((run s us).cons c).waiting with
+  | false => rfl
+  | true => exact absurd (useful_exists (wakeInv_run us hs) hk c hw) hno
+
+/-- **task-level operations are label runs.** Every state the driver (and the harness) reaches with
+`start` / poll-a-future / `fire` operations is reached by a sequence of fine-grained labels, so all
+theorems above hold for it. -/
+theorem C17_ops_are_runs (script : List (Nat × α)) (e : Nat) (ops : List Op) :
+    Reachable script e (opRun (init script e) ops) :=
+  opRun_run (init script e) ops
+
+/-- **fuel.** The loop that models one poll of a request's future never runs out of fuel. -/
+theorem C17_fuel (s : St α) (c : Task) : (pollTask s c).2 ≠ .outOfFuel :=
+  pollTask_fuel s c
+
+/-- **iterator variant.** Over a source that never answers `Pending` the sync cache (`CacheIter::next`,
+`format_*_sync`) behaves exactly like the async one: same results, same states, for every sequence
+of operations – so every theorem above covers the iterator variant. -/
+theorem C17_sync_is_async (items : List α) (ops : List Op) :
+    ops.foldl syncOpStep (init (items.map fun x => (0, x)) 0)
+      = opRun (init (items.map fun x => (0, x)) 0) ops ∧
+    ∀ c, syncTask (opRun (init (items.map fun x => (0, x)) 0) ops) c
+      = pollTask (opRun (init (items.map fun x => (0, x)) 0) ops) c := by
+  have h0 : NoPend (init (items.map fun x => ((0 : Nat), x)) 0) := by
+    refine ⟨?_, rfl, rfl⟩
+    intro p hp
+    simp only [init, List.mem_map] at hp
+    obtain ⟨x, _, rfl⟩ := hp
+    rfl
+  have key : ∀ (ops : List Op) (s : St α), NoPend s →
+      ops.foldl syncOpStep s = opRun s ops ∧ NoPend (opRun s ops) := by
+    intro ops
+    induction ops with
+    | nil => intro s hs; exact ⟨rfl, hs⟩
+    | cons op r ih =>
+      intro s hs
+      have h1 := syncOpStep_eq_opStep op hs
+      have h2 := ih (syncOpStep s op) h1.2
+      simp only [List.foldl, opRun] at h2 ⊢
+      rw [← h1.1]
+      exact h2
+  have := key ops _ h0
+  exact ⟨this.1, fun c => (syncTask_eq_pollTask c this.2).1⟩
+
+/-! ## Non-vacuity (tests by evaluation on literals, not theorems)
+
+Two consumers, three bundles `10, 11, 12`; bundle `11` needs one source event.  Task 0 (depth 3)
+parks on bundle 11, task 1 (depth 2) parks too and replaces task 0's waker in the source; the event
+wakes only task 1; task 1's poll gets the bundle and wakes BOTH registered wakers. -/
+
+private def demo : St Nat :=
+  opRun (init [(0, 10), (1, 11), (0, 12)] 0)
+    [.start 0 3, .start 1 2, .poll 0, .poll 1]
+
+example : (demo.items, demo.pending, demo.src.waker, demo.src.polls, demo.src.pulls)
+    = ([10], [0, 1], some 1, 3, 1) := by decide
+example : Parked demo 0 ∧ Parked demo 1 := by unfold Parked; decide
+example : ((opStep demo .fire).cons 1).woken = true ∧ ((opStep demo .fire).cons 0).woken = false := by decide
+example : (pollTask (opStep demo .fire) 1).2 = .done (some 11) := by decide
+example : let s := (pollTask (opStep demo .fire) 1).1
+    (s.wakeLog, s.pending, (s.cons 0).woken, (s.cons 0).waiting) = ([1, 0, 1], [], true, true) := by decide
+example : let s := (pollTask (opStep demo .fire) 1).1
+    (pollTask s 0).2 = .done (some 12) ∧ (pollTask s 0).1.src.pulls = 3 := by decide
+example : Useful 2 demo .fire ∧ measure 2 demo = 2 * 1 + 3 * 2 + 0 := by
+  refine ⟨?_, ?_⟩
+  · show demo.src.need ≠ 0; decide
+  · decide
+example : deepest (init [(0, 10), (1, 11), (0, 12)] 0) [.start 0 3, .start 1 2, .poll 0, .poll 1] = 3 := by decide
 
 end FluentProofs.C17
